@@ -139,6 +139,8 @@ class StlAstParserVisitor(LtlAstParserVisitor, StlParserVisitor):
     def visitInterval(self, ctx):
         begin, begin_unit = self.visit(ctx.intervalTime(0))
         end, end_unit = self.visit(ctx.intervalTime(1))
+        if begin * self.U[begin_unit or end_unit or self.unit] > end * self.U[end_unit or begin_unit or self.unit]:
+            raise RTAMTException('The lower bound of an interval cannot be greater than its upper bound')
         interval = Interval(begin, end, begin_unit, end_unit)
         return interval
 
